@@ -16,6 +16,9 @@ type C09Step struct {
 	Op  string `json:"op"` // block | verify | ingest | prune | undo
 	B   *Block `json:"b,omitempty"`
 	Set []int  `json:"set,omitempty"`
+	// Stale (prune only): slots whose hashes the forest does not cache (spent leaves, live leaves it never
+	// remembered), mixed into the Prune list after its first entry and at its end
+	Stale []int `json:"stale,omitempty"`
 }
 
 type C09Case struct {
@@ -125,7 +128,20 @@ func genC09(t *rapid.T) C09Case {
 			for _, s := range set {
 				delete(tracked, s)
 			}
-			c.Steps = append(c.Steps, C09Step{Op: "prune", Set: set})
+			var stale []int
+			if rapid.IntRange(0, 2).Draw(t, "stale-prune") == 0 {
+				var cand []int
+				for s := range f.Hashes {
+					if !tracked[s] && !inSet(set, s) {
+						cand = append(cand, s)
+					}
+				}
+				if len(cand) > 0 {
+					k := rapid.IntRange(1, min(2, len(cand))).Draw(t, "nstale")
+					stale = rapid.Permutation(cand).Draw(t, "staleperm")[:k:k]
+				}
+			}
+			c.Steps = append(c.Steps, C09Step{Op: "prune", Set: set, Stale: stale})
 		case "undo":
 			top := stack[len(stack)-1]
 			stack = stack[:len(stack)-1]
@@ -325,11 +341,30 @@ func runC09(c C09Case) *Result {
 				}
 				hs = append(hs, f.Hashes[s])
 			}
-			if err := in.M.Prune(cloneHashes(hs)); err != nil {
-				return res.failf("step %d: Prune(slots %v) failed: %v", i, st.Set, err)
+			for k, s := range st.Stale {
+				if s < 0 || s >= len(f.Hashes) || tracked[s] || inSet(st.Set, s) {
+					return res.failf("case error: stale prune entry %d", s)
+				}
+				// one right after the first entry, the others at the end
+				if k == 0 && len(hs) > 0 {
+					hs = append(hs[:1:1], append([]Hash{f.Hashes[s]}, hs[1:]...)...)
+				} else {
+					hs = append(hs, f.Hashes[s])
+				}
 			}
-			for _, s := range st.Set {
-				delete(tracked, s)
+			if err := in.M.Prune(cloneHashes(hs)); err != nil {
+				if len(st.Stale) == 0 {
+					return res.failf("step %d: Prune(slots %v) failed: %v", i, st.Set, err)
+				}
+				// a list naming hashes the forest does not cache may be refused - then as a whole: nothing is forgotten
+				res.class("prune-naming-uncached-hashes:refused")
+			} else {
+				for _, s := range st.Set {
+					delete(tracked, s)
+				}
+				if len(st.Stale) > 0 {
+					res.class("prune-naming-uncached-hashes:done")
+				}
 			}
 			special = special || sawDelBlock
 			if err := check(fmt.Sprintf("step %d after Prune of slots %v", i, st.Set)); err != nil {
